@@ -268,7 +268,8 @@ impl ErrCtx {
         self.eps * (16.0 * abs_sum + 4.0 * drift)
     }
     pub fn aggregate(n: usize) -> ErrCtx {
-        ErrCtx { exact: false, ops: 1.0, hist_maxabs: 0.0, w: n as f64, eps: F64_EPS }
+        // n recursive additions, each with a partial sum of at most n terms
+        ErrCtx { exact: false, ops: n as f64, hist_maxabs: 0.0, w: n as f64, eps: F64_EPS }
     }
 }
 
